@@ -59,6 +59,54 @@ func main() {
 		for _, id := range ids {
 			fmt.Printf("%s\t%s\n", id, registry[id].Title)
 		}
+	case "factsn":
+		knownFuncsFile = "/verif/known_functions.txt"
+		os.Exit(cmdFacts(os.Args[2:]))
+	case "normalise":
+		// debug: print the normalised text of the files that normalisation rewrites
+		knownFuncsFile = "/verif/known_functions.txt"
+		repo := "/repo"
+		if len(os.Args) > 2 {
+			repo = os.Args[2]
+		}
+		p, err := loadRaw(repo, BuildConfig{}, nil)
+		if err != nil {
+			fmt.Fprintln(os.Stderr, err)
+			os.Exit(2)
+		}
+		ov, notes := p.normaliseOnce(loadKnownFuncs(), 1)
+		for _, n := range notes {
+			fmt.Println("//", n)
+		}
+		for f, b := range ov {
+			fmt.Printf("// ===== %s\n%s\n", f, b)
+		}
+		if ov != nil {
+			if _, err := loadRaw(repo, BuildConfig{}, ov); err != nil {
+				fmt.Println("// TYPECHECK:", err)
+			}
+		}
+	case "funcs":
+		// the vocabulary of known functions of a tree (default /repo): one printable name per line
+		repo := "/repo"
+		if len(os.Args) > 2 {
+			repo = os.Args[2]
+		}
+		p, err := loadRaw(repo, BuildConfig{}, nil)
+		if err != nil {
+			fmt.Fprintln(os.Stderr, err)
+			os.Exit(2)
+		}
+		var names []string
+		for _, fs := range p.allSrc {
+			if fs.Decl != nil {
+				names = append(names, fs.Name)
+			}
+		}
+		sort.Strings(names)
+		for _, n := range names {
+			fmt.Println(n)
+		}
 	case "describe":
 		// markdown description of every rule set, generated from the registry
 		var ids []string
@@ -155,6 +203,9 @@ func runOne(prop *Property, repo string, bc BuildConfig, overlay map[string][]by
 	for _, a := range prop.Assumptions {
 		ctx.Assume(a)
 	}
+	for _, n := range p.Normalised {
+		ctx.Note("normalisation: %s", n)
+	}
 	func() {
 		defer func() {
 			if r := recover(); r != nil {
@@ -185,6 +236,7 @@ func runOne(prop *Property, repo string, bc BuildConfig, overlay map[string][]by
 
 func cmdCheck(args []string) int {
 	o, _ := parseOpts(args)
+	knownFuncsFile = filepath.Join(o.verif, "known_functions.txt")
 	prop := registry[o.prop]
 	if prop == nil {
 		fmt.Fprintf(os.Stderr, "galint: no rule set for property %s\n", o.prop)
@@ -536,6 +588,7 @@ func cmdMutant(args []string) int {
 	if len(args) > 2 {
 		fs.Parse(args[2:])
 	}
+	knownFuncsFile = filepath.Join(o.verif, "known_functions.txt")
 	prop := registry[o.prop]
 	emit := func(oc mutantOutcome) int {
 		b, _ := json.Marshal(oc)
